@@ -47,6 +47,9 @@ fn main() {
         "bar_frames" => bar::bar_frames(rest),
         "bar_hidden" => bar::bar_hidden(rest),
         "multi_order" => bar::multi_order(rest),
+        "multi_logs" => bar::multi_logs(rest),
+        "bar_reuse" => bar::bar_reuse(rest),
+        "multi_rate" => bar::multi_rate(rest),
         "multi_finish" => bar::multi_finish(rest),
         "iter_adaptors" => c17::iter_adaptors(rest),
         "est_decay" => c09::est_decay(rest),
